@@ -119,6 +119,12 @@ func runC01(prop string, res *Result, pool *DrvPool, r *Rng) {
 	for _, c := range dumpCorpus() {
 		check("corpus:"+c.name, c.gs, c.cfg)
 	}
+	// the Lean printer spec the round-trip theorem is about prints the same bytes
+	// and expects the same snapshot as this generator
+	rule := res.Rule
+	runSPEC(prop, res, pool, r.Fork())
+	res.Rule = rule
+	runLowStreams(res, pool, r.Fork())
 	n := countN(res.Tier, 1200, 40000)
 	for i := 0; i < n; i++ {
 		check("generated", GenDump(r, 6, 5), GenCfg(r))
@@ -150,6 +156,10 @@ func runC01(prop string, res *Result, pool *DrvPool, r *Rng) {
 // C08: generated race reports parse to exactly what they describe.
 func runC08(prop string, res *Result, pool *DrvPool, r *Rng) {
 	res.Rule = "race reports drawn from a model of tsan's Go report printer (2..4 operations by distinct non-main goroutines, stacks of 1..4 frames with arguments, a non-empty subset of goroutines with a creation section in any order, running/finished) x LF/CRLF x surrounding text; non-trivial = every report (>= 2 operations); distinct by hash of the text"
+	rule := res.Rule
+	runSPEC(prop, res, pool, r.Fork())
+	res.Rule = rule
+	runLowStreams(res, pool, r.Fork())
 	n := countN(res.Tier, 1500, 50000)
 	for i := 0; i < n; i++ {
 		rs := GenRace(r)
